@@ -17,7 +17,7 @@ from .proxies import SymInt, SymBytes
 PID = "C16"
 _G = {}
 ITEMS = ["fast_first_other_seq", "trunc0", "trunc1", "trunc2", "unknown_pgn", "out_of_range", "bad_text", "bad_usb", "unmatched_multi",
-         "units_decoder_same_payload", "encoder_use", "single_b", "trunc_single"]
+         "units_decoder_same_payload", "encoder_use", "single_b", "trunc_single", "claim_to_other_decoder"]
 
 
 def do_item(R, dec, others, w, item, sym):
@@ -50,6 +50,9 @@ def do_item(R, dec, others, w, item, sym):
         if item == "units_decoder_same_payload":
             for kind in ("single", "fast"):
                 feed(others["units"], w, kind, "a")
+            return None
+        if item == "claim_to_other_decoder":
+            feed(others["units"], w, "claim1", "a")       # another decoder instance learns the identity of the probe's source address
             return None
         if item == "encoder_use":
             others["encoder"].encode_ebyte(_plain_msg(R))
@@ -248,6 +251,11 @@ def replay(r):
                 return None
             if it == "encoder_use":
                 others["encoder"].encode_ebyte(plain_msg())
+                return None
+            if it == "claim_to_other_decoder":
+                # NAME inside the ranges of its numeric fields (unique number 1234, Garmin, function 130, class 10, industry 4)
+                name = 1234 | (229 << 21) | (130 << 40) | (10 << 49) | (4 << 60)
+                others["units"]._decode(60928, 6, src("a"), 255, TS, name.to_bytes(8, "little")[::-1], b"")
                 return None
             if it == "single_b":
                 return single(dec, "b")
